@@ -4,6 +4,66 @@
 //! * `cs`  — C12 / C17: single-threaded differential monitor of a real cache under the frozen
 //!           virtual clock (used by `cache_seq`)
 
+pub mod wd {
+  //! Wall-clock watchdog for calls into the library that never return (a cursor that does not
+  //! advance, a policy loop that never ends): the main thread cannot be interrupted, so a side
+  //! thread writes the shard result with an *inconclusive* entry and ends the process.
+  use std::sync::atomic::{AtomicU64, Ordering};
+  use std::sync::{Arc, Mutex};
+  use std::time::{Duration, Instant};
+  use vh_core::result::ShardResult;
+
+  pub static BEAT: AtomicU64 = AtomicU64::new(0);
+  static CURRENT: Mutex<String> = Mutex::new(String::new());
+
+  /// Called at the start of every case (and cheaply in between): progress was made.
+  #[inline]
+  pub fn beat() {
+    BEAT.fetch_add(1, Ordering::Relaxed);
+  }
+  pub fn describe(s: String) {
+    *CURRENT.lock().unwrap() = s;
+    beat();
+  }
+
+  pub fn spawn(res: Arc<Mutex<ShardResult>>, out: String, start: Instant, limit: Duration) {
+    std::thread::spawn(move || {
+      let mut last = BEAT.load(Ordering::Relaxed);
+      let mut since = Instant::now();
+      loop {
+        std::thread::sleep(Duration::from_millis(250));
+        let b = BEAT.load(Ordering::Relaxed);
+        if b != last {
+          last = b;
+          since = Instant::now();
+          continue;
+        }
+        if since.elapsed() < limit {
+          continue;
+        }
+        let what = CURRENT.lock().map(|s| s.clone()).unwrap_or_default();
+        let msg = format!("a call into the library did not return within {} s (wall-clock watchdog, no verdict): {}", limit.as_secs(), what);
+        let t0 = Instant::now();
+        loop {
+          if let Ok(mut r) = res.try_lock() {
+            r.inconclusive(&msg);
+            r.write(&out, start.elapsed().as_secs_f64());
+            break;
+          }
+          if t0.elapsed() > Duration::from_secs(5) {
+            let mut r = ShardResult::new("?", "watchdog", 0, 0);
+            r.inconclusive(&msg);
+            r.write(&out, start.elapsed().as_secs_f64());
+            break;
+          }
+          std::thread::sleep(Duration::from_millis(20));
+        }
+        std::process::exit(0);
+      }
+    });
+  }
+}
+
 pub mod pol {
   //! Bookkeeping model of the `CachePolicy` contract as the cache itself uses it
   //! (`task/janitor.rs`): `on_admit` for every write (also overwrites), victims of
@@ -365,6 +425,7 @@ pub mod pol {
   /// Runs a case against a fresh policy instance. `final_drain`: finish with
   /// `evict(u64::MAX)` until it returns nothing and compare with the model's tracked set.
   pub fn run(case: &Case, final_drain: bool) -> Outcome {
+    crate::seq::wd::beat();
     let pol = make(case.policy, case.cap);
     let pol: &dyn CachePolicy<u64, ()> = &*pol;
     let mut m = Model::default();
@@ -2112,6 +2173,7 @@ pub mod cs {
     }
 
     fn step(&mut self, op: &Op, at: usize) {
+      crate::seq::wd::beat();
       self.late_loads();
       let t = self.now;
       self.out.c(&format!("ops/{}", op.name()), 1);
@@ -2713,6 +2775,7 @@ pub mod cs {
   }
 
   pub fn run17_iter(c: &IterCase) -> Outcome {
+    crate::seq::wd::beat();
     let mut out = Outcome::default();
     let t0 = freeze_clock();
     let rig = match Rig::build(&c.cfg) {
@@ -2886,6 +2949,7 @@ pub mod cs {
 
   /// run_maintenance until two consecutive passes change nothing observable (bounded).
   fn maintain_to_fixpoint(rig: &Rig, keys: &BTreeSet<u64>) -> bool {
+    crate::seq::wd::beat();
     let view = |rig: &Rig| -> (u64, u64, u64, usize) {
       let m = rig.s.metrics();
       let resident = keys.iter().filter(|k| rig.peek(**k, false).is_some()).count();
@@ -2911,6 +2975,7 @@ pub mod cs {
   }
 
   pub fn run17_restore(c: &RestoreCase) -> Outcome {
+    crate::seq::wd::beat();
     let mut out = Outcome::default();
     let cap = c.cfg.capacity.unwrap_or(u64::MAX);
     let t_start = freeze_clock();
